@@ -261,6 +261,7 @@ func init() {
 			c.LockReleased("C20")
 			c.ConstIndexGuarded("C20")
 			c.DivisionGuarded("C20")
+			c.MetricLabelArity("C20")
 			c.AlignedLists("C20")
 			c.ForkJoinRules("C03") // the fork helper returns (and closes its channels) only after every worker reported: a send on a closed channel kills the process
 			c.ExplicitPanics("C20")
@@ -269,7 +270,7 @@ func init() {
 			c.LockerInternals("C20")
 			c.ContributionRules("C20")
 		},
-		Explanation: "Three exact clause families (necessary conditions of 'no request crashes the daemon'), nothing more: (O1) every field of the request data that the rules or the signing code dereference or slice without a local guard is established non-nil on every path to RunRules - by a dominating test in the service (directly or through its validation helper, for every batch position) or by construction in every handler; (O2) lists are made with one slot per request, accessed only at the loop's/worker's own index, verdict lists have one entry per input for non-empty input and the batch handlers call the service only below [len(requests) != 0]; (O3) the explicit panic / fatal-exit sites reachable from a handler are exactly a reasoned table; (O8) every integer division / remainder in production code has a divisor shown non-zero by a path guard or a small sign analysis. See DESIGN.md §5 C20.",
+		Explanation: "Three exact clause families (necessary conditions of 'no request crashes the daemon'), nothing more: (O1) every field of the request data that the rules or the signing code dereference or slice without a local guard is established non-nil on every path to RunRules - by a dominating test in the service (directly or through its validation helper, for every batch position) or by construction in every handler; (O2) lists are made with one slot per request, accessed only at the loop's/worker's own index, verdict lists have one entry per input for non-empty input and the batch handlers call the service only below [len(requests) != 0]; (O3) the explicit panic / fatal-exit sites reachable from a handler are exactly a reasoned table; (O8) every integer division / remainder in production code has a divisor shown non-zero by a path guard or a small sign analysis; (O9) every WithLabelValues call on a prometheus vector passes as many values as the vector was declared with. See DESIGN.md §5 C20.",
 		Trusted:     append([]string{"NOT decided: nil interface values and non-comma-ok assertions in general, arithmetic index bounds, panics inside dependencies, resource exhaustion by very large batches, the capacity argument that makes Domain[0:4] safe for 1-3 byte domains"}, commonTrusted...),
 	})
 }
